@@ -54,6 +54,9 @@ def build_table(spec):
         if spec["kind"] == "peaky":
             # one token with probability ~ 1
             row[rng.randrange(V)] += 12.0
+        elif spec["kind"] == "very_peaky":
+            # ... the others with log-probability around -70: tiny but finite, nothing may clamp or drop them
+            row[rng.randrange(V)] += 70.0
         tab.append(row)
     if len(_TABLES) > 64:
         _TABLES.clear()
